@@ -1,6 +1,11 @@
 (* C16 correspondence: compare the model with what was observed on qmi.core.config and
    qmi.core.config_struct.  The section variables of the model are instantiated by observations
-   of the library functions they stand for (json.loads with a non-raising pairs hook; float(int)). *)
+   of the library functions they stand for (json.loads with a non-raising pairs hook; float(int));
+   the OPEN CHOICES of the model (line-break rendering of the stripped text, layout of the dumped
+   text, treatment of alternative annotation spellings) are instantiated by what the implementation
+   under test was observed to choose.
+   Compared: values (mappings up to key order, as Python compares them), accepted / rejected,
+   and for configuration errors the ITEM PATHS the message names — never message wording. *)
 Require Export QV.Lib.Corr QV.C16.Model.
 From Coq Require Import String Ascii.
 
@@ -20,6 +25,7 @@ Section LEq.   (* element test outside the fix, so that nested recursive uses pa
     end.
 End LEq.
 
+(* mappings are compared as Python compares dicts: same keys, equal values, order irrelevant *)
 Fixpoint jval_eqb (a b : jval) : bool :=
   match a, b with
   | JNull, JNull => true
@@ -29,23 +35,23 @@ Fixpoint jval_eqb (a b : jval) : bool :=
   | JStr x, JStr y => str_eq x y
   | JList x, JList y => leqb jval_eqb x y
   | JObj x, JObj y =>
-      (fix go (x y : list (str * jval)) : bool :=
-         match x, y with
-         | [], [] => true
-         | (k, v) :: x', (k', v') :: y' => str_eq k k' && jval_eqb v v' && go x' y'
-         | _, _ => false
-         end) x y
+      Nat.eqb (List.length x) (List.length y) && negb (dup_keys (map fst x)) &&
+      (fix go (x : list (str * jval)) : bool :=
+         match x with
+         | [] => true
+         | (k, v) :: x' => match assoc k y with Some v' => jval_eqb v v' | None => false end && go x'
+         end) x
   | _, _ => false
   end.
 
 Fixpoint cval_eqb (a b : cval) : bool :=
-  let items :=
-    (fix go (x y : list (str * cval)) : bool :=
-       match x, y with
-       | [], [] => true
-       | (k, v) :: x', (k', v') :: y' => str_eq k k' && cval_eqb v v' && go x' y'
-       | _, _ => false
-       end) in
+  let items := fun (x y : list (str * cval)) =>
+    Nat.eqb (List.length x) (List.length y) && negb (dup_keys (map fst x)) &&
+    (fix go (x : list (str * cval)) : bool :=
+       match x with
+       | [] => true
+       | (k, v) :: x' => match assoc k y with Some v' => cval_eqb v v' | None => false end && go x'
+       end) x in
   match a, b with
   | VNull, VNull => true
   | VBool x, VBool y => Bool.eqb x y
@@ -66,30 +72,6 @@ Definition pelem_eqb (a b : pelem) : bool :=
   | PField k, PField k' => str_eq k k'
   | _, _ => false
   end.
-Definition ekind_eqb (a b : ekind) : bool :=
-  match a, b with
-  | Mismatch, Mismatch | Missing, Missing | Unknown, Unknown => true
-  | _, _ => false
-  end.
-
-(* observed outcome of load_config_string *)
-Inductive lobs :=
-| LoOk (v : jval)       (* returned this (key order kept) *)
-| LoValueError          (* ValueError or a subclass (json.JSONDecodeError) *)
-| LoConfig              (* QMI_ConfigurationException *)
-| LoOther.              (* anything else *)
-
-(* observed outcome of config_struct_from_dict, and of config_struct_to_dict on its result *)
-Inductive pobs :=
-| PoOk (v : cval) (back : jval)
-| PoErr (k : ekind) (p : path)   (* QMI_ConfigurationException with this message kind and item path *)
-| PoOther.                       (* any other exception, or an unreadable message *)
-
-(* observed outcome of _check_config_struct_type *)
-Inductive cobs :=
-| CoOk
-| CoErr (k : ckind) (p : list cpelem)   (* QMI_ConfigurationException, message kind and definition path *)
-| CoOther.
 Definition cpelem_eqb (a b : cpelem) : bool :=
   match a, b with
   | CAny, CAny => true
@@ -97,63 +79,91 @@ Definition cpelem_eqb (a b : cpelem) : bool :=
   | CField k, CField k' => str_eq k k'
   | _, _ => false
   end.
-Definition ckind_eqb (a b : ckind) : bool :=
-  match a, b with
-  | CUnion, CUnion | CNonStrKey, CNonStrKey | CType, CType => true
-  | _, _ => false
-  end.
-Definition cobs_match (m : cres) (o : cobs) : bool :=
-  match m, o with
-  | COk, CoOk => true
-  | CErr k p, CoErr k' p' => ckind_eqb k k' && list_eqb cpelem_eqb p p'
-  | _, _ => false
-  end.
+
+(* observed outcome of load_config_string *)
+Inductive lobs :=
+| LoOk (v : jval)       (* returned this *)
+| LoRejected            (* ValueError (incl. json.JSONDecodeError) or QMI_ConfigurationException *)
+| LoOther.              (* anything else *)
+
+(* observed outcome of config_struct_from_dict / _parse_config_value, and of config_struct_to_dict
+   on the result *)
+Inductive pobs :=
+| PoOk (v : cval) (back : jval)
+| PoErr (named : list path)      (* QMI_ConfigurationException; the item paths its message names *)
+| PoOther.                       (* any other exception *)
+
+(* observed outcome of _check_config_struct_type *)
+Inductive cobs :=
+| CoOk
+| CoErr (named : list (list cpelem))   (* QMI_ConfigurationException; the definition paths it names *)
+| CoOther.
 
 Definition opt_nat_eqb := option_eqb Nat.eqb.
 
 Inductive case :=
-(* text; per line of re.split: None = line kept, Some n = line cut to its first n characters *)
+(* text; per line (split at CR / LF) of the implementation's comment-free text: None = line kept,
+   Some n = line cut to its first n characters *)
 | CStrip (text : str) (cuts : list (option nat))
-(* text; cuts; json.loads(stripped text) with raw pairs (None = JSONDecodeError); outcome *)
+(* text; cuts; json.loads(comment-free text) with raw pairs (None = JSONDecodeError); outcome *)
 | CLoad (text : str) (cuts : list (option nat)) (raw : option jval) (obs : lobs)
-(* configuration data; dump_config_string(data) (None = QMI_ConfigurationException) *)
-| CDump (d : jval) (text : option str)
+(* mapping; dump_config_string(mapping); json.loads of it with raw pairs: whatever the layout, the
+   scanner must leave the text alone and loading it must give the mapping back *)
+| CDump (d : jval) (text : str) (raw : option jval)
+(* data; was dump refused (true) — a non-mapping must be refused *)
+| CDumpRefused (d : jval) (refused : bool)
+(* mapping; dumped text: equality with the pinned printer (layout is an open choice: a difference
+   is recorded in the evidence, it is not a disagreement) *)
+| CDumpPinned (d : jval) (text : str)
 (* declared type; data; observed float(z) for the integers of the data; outcome *)
 | CParse (T : cty) (d : jval) (ftab : list (Z * option str)) (obs : pobs)
-(* annotation; outcome of _check_config_struct_type(annotation, []) *)
-| CCheck (a : ann) (obs : cobs)
-(* annotation (any); data; float table; outcome of _parse_config_value(data, annotation, []) *)
-| CParseAnn (a : ann) (d : jval) (ftab : list (Z * option str)) (obs : pobs).
+(* families of alternative spellings the implementation handles; annotation; outcome of
+   _check_config_struct_type(annotation, []) *)
+| CCheck (fams : list nat) (a : ann) (obs : cobs)
+(* families; annotation (any); data; float table; outcome of _parse_config_value(data, annotation, []) *)
+| CParseAnn (fams : list nat) (a : ann) (d : jval) (ftab : list (Z * option str)) (obs : pobs).
 
 Definition foi_of (tab : list (Z * option str)) (z : Z) : option str :=
   match find (fun e => Z.eqb (fst e) z) tab with Some (_, r) => r | None => None end.
+Definition pol_of (fams : list nat) (n : nat) : bool := existsb (Nat.eqb n) fams.
 
 Definition model_cuts (text : str) : list (option nat) := map scan (lines text).
 
 Definition lobs_match (m : lres) (o : lobs) : bool :=
   match m, o with
   | LOk v, LoOk v' => jval_eqb v v'
-  | LErr ENotJson, LoValueError | LErr EDupKey, LoValueError => true
-  | LErr ENotMapping, LoConfig => true
+  | LErr _, LoRejected => true
   | _, _ => false
   end.
 
 Definition pobs_match (m : result cval) (o : pobs) : bool :=
   match m, o with
   | Ok v, PoOk v' back => cval_eqb v v' && jval_eqb (to_data v) back
-  | Err k p, PoErr k' p' => ekind_eqb k k' && list_eqb pelem_eqb p p'
+  | Err _ p, PoErr named => existsb (list_eqb pelem_eqb p) named
   | _, _ => false
   end.
+
+Definition cobs_match (m : cres) (o : cobs) : bool :=
+  match m, o with
+  | COk, CoOk => true
+  | CErr _ p, CoErr named => existsb (list_eqb cpelem_eqb p) named
+  | _, _ => false
+  end.
+
+Definition lres_is (m : lres) (d : jval) : bool :=
+  match m with LOk v => jval_eqb v d | _ => false end.
 
 Definition check_case (c : case) : bool :=
   match c with
   | CStrip text cuts => list_eqb opt_nat_eqb (model_cuts text) cuts
   | CLoad text cuts raw obs =>
       list_eqb opt_nat_eqb (model_cuts text) cuts && lobs_match (load (fun _ => raw) text) obs
-  | CDump d text => option_eqb str_eq (dump d) text
+  | CDump d text raw => str_eq (strip text) text && lres_is (load (fun _ => raw) text) d
+  | CDumpRefused d refused => Bool.eqb (match dump d with None => true | Some _ => false end) refused
+  | CDumpPinned d text => option_eqb str_eq (dump d) (Some text)
   | CParse T d ftab obs => pobs_match (from_dict (foi_of ftab) T d) obs
-  | CCheck a obs => cobs_match (check a []) obs
-  | CParseAnn a d ftab obs => pobs_match (parse_ann (foi_of ftab) a d []) obs
+  | CCheck fams a obs => cobs_match (check (pol_of fams) a []) obs
+  | CParseAnn fams a d ftab obs => pobs_match (parse_ann (pol_of fams) (foi_of ftab) a d []) obs
   end.
 
 (* for replays: what the model says *)
@@ -167,8 +177,10 @@ Definition model_out (c : case) : model_res :=
   match c with
   | CStrip text _ => MCuts (model_cuts text) (strip text)
   | CLoad text _ raw _ => MLoad (model_cuts text) (load (fun _ => raw) text)
-  | CDump d _ => MDump (dump d)
+  | CDump d text raw => MLoad (model_cuts text) (load (fun _ => raw) text)
+  | CDumpRefused d _ => MDump (dump d)
+  | CDumpPinned d _ => MDump (dump d)
   | CParse T d ftab _ => MParse (from_dict (foi_of ftab) T d)
-  | CCheck a _ => MCheck (check a [])
-  | CParseAnn a d ftab _ => MParse (parse_ann (foi_of ftab) a d [])
+  | CCheck fams a _ => MCheck (check (pol_of fams) a [])
+  | CParseAnn fams a d ftab _ => MParse (parse_ann (pol_of fams) (foi_of ftab) a d [])
   end.
